@@ -234,8 +234,8 @@ def check(ck):
                            "the module of a dotted class name is imported without a non-empty fromlist: __import__ returns the top-level "
                            "package, so classes of sub-modules (pkg.mod.Cls) are not found", q.loc(fl, n))
     # load() evaluated abstractly (E7) on a descriptor {"__jsonclass__": [name, params]}: one constructor call, which receives
-    # a list's elements positionally in order, or a dictionary's items by keyword; anything else is a TranslationError
-    # raised before any constructor runs
+    # a list's elements positionally in order, or a dictionary's items by keyword; anything else is rejected
+    # by an exception raised before any constructor runs
     a_, b_ = shape.Sym("arg0", pytype=int), shape.Sym("arg1", pytype=str)
     for (cname, table) in (("Cls", "own"), ("pkg.mod.Cls", None), ("pkg.mod.Cls", "other")):
         for (label, params, want) in (("[a, b]", lambda: shape.L([a_, b_]), ([a_, b_], {})), ("[]", lambda: shape.L([]), ([], {})),
@@ -249,10 +249,12 @@ def check(ck):
             calls = [c for c in getattr(ev, "opaque_calls", []) if c[1] == "__call__"]
             where = "%s[name=%s%s, params=%s]" % (q.fn(fl), cname, ", class table without it" if table == "other" else "", label)
             if want is None:
-                okk = len(res) >= 1 and all(o[0] == "raise" and o[1] == "TranslationError" for (_d, o) in res) and not calls
-                ck.require(okk, "C07.5", where, "TranslationError, no constructor call",
+                # (which exception is not part of the property: the server answers -32700 for any; C08.4 names TranslationError for
+                # invalid class names only)
+                okk = len(res) >= 1 and all(o[0] == "raise" for (_d, o) in res) and not calls
+                ck.require(okk, "C07.5", where, "rejected with an exception, no constructor call",
                            "constructor arguments %s (neither list nor dictionary) give %s with %d constructor call(s) instead of a "
-                           "TranslationError" % (label, [o[:2] for (_d, o) in res], len(calls)), q.loc(fl, fl.node))
+                           "rejection" % (label, [o[:2] for (_d, o) in res], len(calls)), q.loc(fl, fl.node))
             else:
                 okk = len(res) == 1 and res[0][1][0] == "return" and len(calls) == 1 and calls[0][2] == want[0] and calls[0][3] == want[1]
                 if okk:
